@@ -298,5 +298,11 @@ func (v *Value) Pairs(f func(k, val *Value)) {
 			k := Value{K: Int, I: int64(i + 1)}
 			f(&k, &v.E[i])
 		}
+	case Rec:
+		// TLC prints a function whose domain is a set of identifier-like strings as a record
+		for i := range v.E {
+			k := Value{K: Str, S: v.Names[i]}
+			f(&k, &v.E[i])
+		}
 	}
 }
